@@ -347,7 +347,7 @@ def attrs_text(f):
 def tree_text(inst):
     k = inst["k"]
     if k == "leaf":
-        kind = {"leaf": f"l:{inst['ty']}", "strleaf": "s:Alpha,Beta,Gamma", "deny": f"d:{inst['ty']}"}[inst["lk"]]
+        kind = {"leaf": f"l:{inst['ty']}", "strleaf": "s:Alpha,Beta,Gamma,alpha", "deny": f"d:{inst['ty']}"}[inst["lk"]]
         return f"L {kind} {val_text(inst['ty'], inst['v'])}"
     if k == "array":
         if inst["fromfn"]:
